@@ -9,7 +9,7 @@ from sa.consteval import ConstEnv
 EXPL = ('Decides writer/reader/evaluator agreement for the policy file format: (1) every active `key = value` line the template in Policy.create can emit is a key the constructor accepts, is parsed by the inverse of the idiom that '
         'serialised it, lands in the private field that Policy.evaluate compares with the very accessor create() serialised (triangle label -> field -> accessor); (2) the line parser\'s split on the key/value separator does not constrain the value '
         'although serialised values can contain the separator (the alphabet is taken from the rating table itself: names containing "="); (3) for each covered attribute evaluate() has a failing site that is live when both relaxation flags are false, '
-        'and the generated policy sets both flags false; (4) satisfiability conditions of all built-in policies (required/optional host keys disjoint, size maps refer to listed names); (5) -M and -P are wired to the scan\'s own KEXINIT object and role mismatches '
+        'and the generated policy sets both flags false; (3b) Policy.evaluate is abstractly interpreted (sa/listinterp.py) on a representative policy state against the peer it was made from (every path: verdict True, no error) and against 40+ single-attribute perturbations of that peer -- names added / removed / reordered in each list, each host-key size, CA size, CA type, group-exchange modulus changed -- where every path must return False and append an error naming the field; (4) satisfiability conditions of all built-in policies (required/optional host keys disjoint, size maps refer to listed names); (5) -M and -P are wired to the scan\'s own KEXINIT object and role mismatches '
         'exit before connecting. Not decided: byte-level round trip of names outside the RFC 4251 alphabet, and that a passing policy prints no errors.')
 
 # label in the policy file -> (private field, accessor serialised by create / compared by evaluate, serialiser idiom)
@@ -216,6 +216,96 @@ def run(repo, rep, tier):
         ss = sites.get(lab, [])
         live = [s for s in ss if not excludes(path_condition(s), 'self._allow_algorithm_subset_and_reordering', False) and not excludes(path_condition(s), 'self._allow_larger_keys', False)]
         rep.check('exact', 'a failing site for %r is live in exact mode and names the field' % lab, len(live) >= 1, ss[0] if ss else ev_, 'no exact-mode comparison reports %r: drift in that attribute goes unnoticed' % lab)
+
+    # ---- rule 3b: drift table by abstract interpretation ------------------------------------------------------------------------
+    # Policy.evaluate is interpreted (sa/listinterp.py) on a representative policy state (the fields the loader fills, as
+    # established by the triangle rule; both relaxation flags false as the template fixes them) against the peer it was made
+    # from -- every path must return True with no error appended -- and against that peer with exactly one covered attribute
+    # perturbed -- every path must return False and append an error whose label names the field.
+    import copy as _copy
+    from sa.listinterp import Interp
+    from sa.abseval import Opaque, Unknown
+    base_peer = {
+        'kex.key_algorithms': ['rsa-sha2-512', 'rsa-sha2-256', 'ssh-rsa', 'rsa-sha2-512-cert-v01@openssh.com', 'ssh-ed25519', 'ssh-ed25519-cert-v01@openssh.com'],
+        'kex.kex_algorithms': ['curve25519-sha256', 'diffie-hellman-group-exchange-sha256', 'diffie-hellman-group-exchange-sha1', 'kex-strict-s-v00@openssh.com'],
+        'kex.server.encryption': ['chacha20-poly1305@openssh.com', 'aes256-gcm@openssh.com', 'aes128-ctr'],
+        'kex.server.mac': ['hmac-sha2-256-etm@openssh.com', 'umac-128-etm@openssh.com'],
+        'kex.server.compression': ['none', 'zlib@openssh.com'],
+        'kex.host_keys()': {
+            'rsa-sha2-512': {'hostkey_size': 3072, 'ca_key_type': '', 'ca_key_size': 0},
+            'rsa-sha2-256': {'hostkey_size': 3072, 'ca_key_type': '', 'ca_key_size': 0},
+            'ssh-rsa': {'hostkey_size': 3072, 'ca_key_type': '', 'ca_key_size': 0},
+            'rsa-sha2-512-cert-v01@openssh.com': {'hostkey_size': 4096, 'ca_key_type': 'ssh-ed25519', 'ca_key_size': 256},
+            'ssh-ed25519': {'hostkey_size': 256, 'ca_key_type': '', 'ca_key_size': 0},
+            'ssh-ed25519-cert-v01@openssh.com': {'hostkey_size': 256, 'ca_key_type': 'ssh-rsa', 'ca_key_size': 4096},
+        },
+        'kex.dh_modulus_sizes()': {'diffie-hellman-group-exchange-sha256': 3072, 'diffie-hellman-group-exchange-sha1': 2048},
+    }
+    FIELD_OF = {'kex.key_algorithms': '_host_keys', 'kex.kex_algorithms': '_kex', 'kex.server.encryption': '_ciphers', 'kex.server.mac': '_macs', 'kex.server.compression': '_compressions',
+                'kex.host_keys()': '_hostkey_sizes', 'kex.dh_modulus_sizes()': '_dh_modulus_sizes'}
+    LABEL_OF = {'kex.key_algorithms': 'Host keys', 'kex.kex_algorithms': 'Key exchanges', 'kex.server.encryption': 'Ciphers', 'kex.server.mac': 'MACs', 'kex.server.compression': 'Compression'}
+
+    def policy_env(peer):
+        e = {'self.' + FIELD_OF[k]: _copy.deepcopy(v) for k, v in base_peer.items()}
+        e.update({'self._banner': None, 'self._optional_host_keys': None, 'self._allow_algorithm_subset_and_reordering': False, 'self._allow_larger_keys': False,
+                  'banner': 'SSH-2.0-OpenSSH_9.9', 'kex': Opaque(), 'kex.server': Opaque(), 'self': Opaque()})
+        e.update(_copy.deepcopy(peer))
+        return e
+    scenarios = [('the peer the policy was made from', dict(base_peer), None)]
+    for acc, lab in LABEL_OF.items():
+        if acc == 'kex.server.compression':
+            continue            # commented out in the generated policy; not a covered attribute
+        lst = base_peer[acc]
+        scenarios.append(('%s: last name removed' % lab, dict(base_peer, **{acc: lst[:-1]}), lab))
+        scenarios.append(('%s: first name removed' % lab, dict(base_peer, **{acc: lst[1:]}), lab))
+        scenarios.append(('%s: a name added' % lab, dict(base_peer, **{acc: lst + ['added-name@example.com']}), lab))
+        scenarios.append(('%s: a name inserted in front' % lab, dict(base_peer, **{acc: ['added-name@example.com'] + lst}), lab))
+        scenarios.append(('%s: two names swapped' % lab, dict(base_peer, **{acc: [lst[1], lst[0]] + lst[2:]}), lab))
+    for hk, ent in base_peer['kex.host_keys()'].items():
+        for delta in (1024, -128):
+            d = _copy.deepcopy(base_peer['kex.host_keys()'])
+            d[hk]['hostkey_size'] = ent['hostkey_size'] + delta
+            scenarios.append(('host key %s size %+d' % (hk, delta), dict(base_peer, **{'kex.host_keys()': d}), 'Host key (%s) sizes' % hk))
+        if ent['ca_key_type']:
+            for delta in (1024, -128):
+                d = _copy.deepcopy(base_peer['kex.host_keys()'])
+                d[hk]['ca_key_size'] = ent['ca_key_size'] + delta
+                scenarios.append(('CA key size of %s %+d' % (hk, delta), dict(base_peer, **{'kex.host_keys()': d}), 'CA signature size'))
+            d = _copy.deepcopy(base_peer['kex.host_keys()'])
+            d[hk]['ca_key_type'] = 'ecdsa-sha2-nistp256'
+            scenarios.append(('CA key type of %s changed' % hk, dict(base_peer, **{'kex.host_keys()': d}), 'CA signature type'))
+    for gx, sz in base_peer['kex.dh_modulus_sizes()'].items():
+        for delta in (1024, -1024):
+            d = dict(base_peer['kex.dh_modulus_sizes()'])
+            d[gx] = sz + delta
+            scenarios.append(('group-exchange modulus of %s %+d' % (gx, delta), dict(base_peer, **{'kex.dh_modulus_sizes()': d}), 'Group exchange (%s) modulus sizes' % gx))
+    rep.floor('drift', 'drift scenarios', len(scenarios), 40)
+    npaths = 0
+    for desc, peer, want_label in scenarios:
+        it = Interp(effect_names=('_append_error',))
+        try:
+            finals = it.run(ev_.body, policy_env(peer))
+        except Unknown as ex:
+            raise AnalysisError('Policy.evaluate cannot be interpreted for scenario %r: %s' % (desc, ex))
+        problem = None
+        for fe in finals:
+            npaths += 1
+            rep.evals()
+            r = fe.get('<return>')
+            if fe.get('<outcome>') != 'return' or not isinstance(r, tuple) or not isinstance(r[0], bool):
+                raise AnalysisError('Policy.evaluate: verdict not computable for scenario %r (forks: %s)' % (desc, fe.get('<forks>')))
+            labels = [str(a[0]) for nm, a, k in fe['<effects>'] if a and not isinstance(a[0], Opaque)]
+            if want_label is None:
+                if r[0] is not True or fe['<effects>']:
+                    problem = 'the policy made from a target FAILS on that very target (verdict %s, errors %s)' % (r[0], labels)
+            else:
+                if r[0] is not False:
+                    problem = 'drift goes unnoticed: %s -- evaluate() still returns True' % desc
+                elif not any(l.startswith(want_label) for l in labels):
+                    problem = 'drift (%s) fails the policy but no error names the field %r (errors: %s)' % (desc, want_label, labels)
+        rep.check('drift', 'exact-mode verdict for: %s' % desc, problem is None, ev_, problem or '', stmt='drift scenario: %s' % (desc.split(':')[0] if want_label in LABEL_OF.values() else re.sub(r' [+-]\d+$', '', desc)),
+                  sample={'rule': 'drift', 'scenario': desc, 'paths': len(finals)} if want_label is None else None)
+    rep.samples.append({'rule': 'drift', 'scenarios': len(scenarios), 'paths': npaths})
 
     # ---- rule 4: built-in policy data ----------------------------------------------------------------------------------------------
     pol = ce.lookup('builtin_policies', 'BUILTIN_POLICIES')
